@@ -723,13 +723,21 @@ func runC19(c *C) {
 		c.Hist(fmt.Sprintf("%s:%s:n=%d", label, sc, n))
 	}
 	for _, raw := range c.ReplayInputs() {
-		var in struct{ Child string }
+		// a schedule cannot be replayed; the recorded child (scenario, goroutine count, seed) is re-run ten times
+		// with neighbouring seeds, with the binary (plain / -race) that reported it
+		var in struct{ Child, Binary string }
 		if json.Unmarshal(raw, &in) == nil && strings.HasPrefix(in.Child, "c19:") {
 			p := strings.Split(in.Child, ":")
+			bin, label, race := me, "plain", false
+			if in.Binary == "race" {
+				if v := buildVariants(c); v.Race != "" {
+					bin, label, race = v.Race, "race", true
+				}
+			}
 			if len(p) == 4 {
-				check(me, "plain", p[1], 1, 0, false)
-				for i := 0; i < 10; i++ {
-					check(me, "plain", p[1], atoiDefault(p[2], 8), int64(atoiDefault(p[3], 1))+int64(i), false)
+				check(bin, label, p[1], 1, 0, race)
+				for i := 0; i < 10 && !c.Failed(); i++ {
+					check(bin, label, p[1], atoiDefault(p[2], 8), int64(atoiDefault(p[3], 1))+int64(i), race)
 				}
 			}
 		}
@@ -751,7 +759,7 @@ func runC19(c *C) {
 		if c.Thorough() {
 			ns = []int{2, 3, 4, 8, 16, 32, 64}
 		}
-		reps := c.N(1, 10)
+		reps := c.N(1, 6)
 		for rep := 0; rep < reps && !c.Failed(); rep++ {
 			for _, n := range ns {
 				check(me, "plain", sc, n, c.Seed*100+int64(rep), false)
@@ -786,7 +794,7 @@ func runC19(c *C) {
 			if seqDigest["race"+sc] == "" {
 				continue
 			}
-			for rep := 0; rep < c.N(1, 6) && !c.Failed(); rep++ {
+			for rep := 0; rep < c.N(1, 4) && !c.Failed(); rep++ {
 				for _, n := range []int{4, 16}[c.N(1, 0):] {
 					check(v.Race, "race", sc, n, c.Seed*100+int64(rep), true)
 					nRace++
